@@ -166,6 +166,60 @@ func c13R6(p *core.Program, r *core.Report) {
 		}
 	}
 	r.Check(ok, rule, sd, "SourceDir = <module>.Dir + PkgPath[len(<module>.Path):] for one module value", sd.Node().Pos(), "filepath.Join(m.Dir, p.PkgPath[len(m.Path):])", why)
+	// ... and nothing else: every return of the computation is that join, the module's Dir itself (root package), the
+	// empty string, the memo, or the value computed by the function's own closure
+	for _, ff := range p.Funcs() {
+		if !inSD[ff] {
+			continue
+		}
+		info := ff.Info()
+		ast.Inspect(ff.Body, func(n ast.Node) bool {
+			if lit, isLit := n.(*ast.FuncLit); isLit && lit != ff.Lit {
+				return false
+			}
+			ret, isRet := n.(*ast.ReturnStmt)
+			if !isRet || len(ret.Results) != 1 {
+				return true
+			}
+			if t := info.TypeOf(ret.Results[0]); t == nil || !isBasicKind(t, types.String) {
+				return true
+			}
+			e, _ := core.Resolve(info, ff.Root().Body, ret.Results[0])
+			e = ast.Unparen(e)
+			good := false
+			switch x := e.(type) {
+			case *ast.BasicLit:
+				good = constStrIs(info, x, "")
+			case *ast.StarExpr:
+				good = true // the memo
+			case *ast.SelectorExpr:
+				good = x.Sel.Name == "Dir" && core.NamedTypeName(info.TypeOf(x.X)) == "golang.org/x/tools/go/packages.Module"
+			case *ast.CallExpr:
+				switch name := core.CalleeName(info, x); {
+				case name == "path/filepath.Join":
+					good = true // its shape is judged above
+				default:
+					// the function's own closure (immediately invoked, or called through a local) or an unexported helper of it
+					if _, isLit := ast.Unparen(x.Fun).(*ast.FuncLit); isLit {
+						good = true
+					} else if v := core.VarOf(info, x.Fun); v != nil && !v.IsField() {
+						good = true
+					} else if fn := core.CalleeFunc(info, x); fn != nil {
+						if hf := p.FuncOfObj(fn); hf != nil && inSD[hf] {
+							good = true
+						}
+					}
+				}
+			case *ast.Ident:
+				if tv, has := info.Types[x]; has && tv.Value != nil {
+					good = constStrIs(info, x, "")
+				}
+			}
+			r.Check(good, rule, ff, "SourceDir answers only the module-relative directory: return "+core.ExprStr(ret.Results[0]), ret.Pos(), "the join, the module's Dir, \"\", the memo or the computed value",
+				"SourceDir can answer a directory that is not derived from the module's Dir and the package path (for instance the directory of a file position, which follows //line directives): generated files are written there and LocateInPackage no longer finds the package's own files")
+			return true
+		})
+	}
 }
 
 // c13R7: the universe is read-only after Load. Methods of the loaded package /
